@@ -109,6 +109,10 @@ def gen_cases(tier: str, seed: int) -> list[dict]:
     for nk in (2, 3, 4):
         for w in (0, 2):
             cases.append({"payload": "small", "nkeys": nk, "workers": w, "fp": {"kind": "same_process"}})
+    for kt in ("float_fine_steps", "float_large", "numpy_float", "int", "tuple", "negative_and_small"):
+        for w in (0, 2):
+            cases.append({"payload": f"keys:{kt}", "nkeys": 4, "workers": w, "fp": {"kind": "none"}})
+        cases.append({"payload": f"keys:{kt}", "nkeys": 4, "workers": 0, "fp": {"kind": "subset", "subset": [1, 3]}})
     for i, c in enumerate(cases):
         c["seed"] = f"{seed}:C19:{i}"
     return cases
@@ -142,6 +146,20 @@ def run_workload(payload: str, nkeys: int, cache_dir: str | None, workers: int, 
         res = parallelise(fn, [(f"k{i}", i + 2) for i in idx], cache=cache, parallel=workers > 0,
                           max_workers=workers or None, disable_tqdm=True)
         return [(k, v) for k, v in res]
+    if payload.startswith("keys:"):
+        # other key types than strings; the keys are distinct objects and must stay distinct results
+        kinds = {
+            "float_fine_steps": [1.0 + i * 1e-7 for i in idx],
+            "float_large": [1e6 + float(i) for i in idx],
+            "numpy_float": [np.float64(2.0) + i * 2e-7 for i in idx],
+            "int": [10 + i for i in idx],
+            "tuple": [(i, 0.5 + i * 1e-7) for i in idx],
+            "negative_and_small": [(-1.0) ** i * 1e-9 * (i + 1) for i in idx],
+        }
+        keys = kinds[payload.split(":", 1)[1]]
+        res = parallelise(cachefn.small, [(k, i + 2) for k, i in zip(keys, idx)], cache=cache, parallel=workers > 0,
+                          max_workers=workers or None, disable_tqdm=True)
+        return [(repr(k), v) for k, v in res]
     from mxlpy import scan
 
     import multiprocessing
@@ -284,7 +302,7 @@ def run_case(case: dict) -> dict:
                 counters["third_run_checked"] = 1
             if fp["kind"] == "subset":
                 redone = sorted(calls_after_2[len(calls_after_1):])
-                want = sorted(str(i + 2) for i in range(nkeys) if i not in fp["subset"]) if payload in ("small", "medium") else None
+                want = sorted(str(i + 2) for i in range(nkeys) if i not in fp["subset"]) if payload in ("small", "medium") or payload.startswith("keys:") else None
                 if want is not None and redone != want:
                     viols.append(core.viol("rerun over a partially filled cache did not compute exactly the missing keys", None, case=ident, computed=redone, missing=want))
                 counters["partial_cache_reruns"] = 1
